@@ -17,6 +17,30 @@ CLAIMED = {
   "note": "Trusted: Lean kernel; num-bigint/num-rational exactness; the lexing of literals and the precedence ladder are covered by the correspondence run and not yet by theorems (lex_literal / parse_renders are future work); results beyond 2^24 bits are classed huge and skipped.",
   "design_ref": "DESIGN.md §7 C01",
  },
+ "C02": {
+  "technique": "Lean 4 proof by mutual structural induction over the whole expression language (eval_canonical) + algebra/gate lemmas + differential correspondence with an exponent-vector oracle",
+  "text": "Rink.Spec.eval_canonical: for every expression (all operators, all 20 functions, any nesting) evaluated in a context with canonical database entries, the result's dimensionality is strictly sorted and carries no zero exponent; mul_unit/div_unit/pow_unit/root_unit state the algebra (add, subtract, multiply exponents; roots divide and are refused unless exact); gate lemmas state every refusal (sum, difference, mod, hypot, atan2 between different dimensionalities; trig only on dimensionless/radian; inverse trig returns radian). Dim.merge (btree_merge) lemmas are proved for all sorted inputs. The evaluator model is tied to eval_expr by random trees over every lexable database unit with prefixes/plurals, quoted base units and rational coefficients; the dimensional algebra of the generating tree, computed independently over exponent vectors, is the oracle and every reply is scanned for zero exponents.",
+  "note": "Trusted: Lean kernel (+ Mathlib's LinearOrder String); operand dimensionalities come from Context::lookup; float values are opaque (only dimensionality compared); exponents are unbounded Int in the model (i64 overflow not modelled).",
+  "design_ref": "DESIGN.md §7 C02",
+ },
+ "C03": {
+  "technique": "Lean 4 proof about the conversion arm (convert_ok_iff, convert_exact, convert_back, convert_mismatch) + differential correspondence over conformable unit pairs with an exact x*t=v oracle",
+  "text": "For every pair of exact numbers v, t: the conversion succeeds iff the dimensionalities are equal (and t is not zero), the reported x satisfies x*t = v exactly and is dimensionless, x t is v again (so converting back returns v), a mismatch is a conformance error and a zero target a generic error; evalQuery_convert shows the model's Convert arm is exactly this decision. Tied to the code by ordered pairs of conformable database units (sampled in quick, exhaustive in thorough) and random compound sources/targets including inline definitions, with x*t = v checked over exact fractions.",
+  "note": "Trusted: Lean kernel; values of source/target expressions come from Context::eval; sums/differences as targets are outside the quantifier of C03 and are not generated; the reciprocal/missing-factor hint texts are not modelled (only the error class).",
+  "design_ref": "DESIGN.md §7 C03",
+ },
+ "C09": {
+  "technique": "Lean 4 proof over all rationals and all unit lists (decomp_sum, decomp_integral, remainders_lt, decomp_sign_*) + differential correspondence with the four laws as oracle",
+  "text": "For every rational v and every non-empty list of non-zero units the model's loop (proved equal to Eval.listLoop, never panicking) satisfies sum(part_i*u_i) = v, all parts but the last are integers, every remainder is smaller in magnitude than the unit just used, and with positive units all parts share v's sign; non-conformable members or values are refused. Tied to to_list and the automatic duration breakdown by lists of 2-6 units from every dimensionality with at least two units (any order, repeats, non-conformable members) and time values in every time unit; the laws are re-evaluated on the implementation's parts with exact fractions.",
+  "note": "Trusted: Lean kernel, Mathlib order/field lemmas on Rat; truncation = BigInt division toward zero; unit values from Context::lookup.",
+  "design_ref": "DESIGN.md §7 C09",
+ },
+ "C10": {
+  "technique": "Lean 4 proof (affine round trip for all rationals; kernel-checked equality of the regenerated constant table with the textbook constants) + differential correspondence over all 36 pairs and spellings",
+  "text": "degree_roundtrip holds for every rational x and any non-zero scale; resolved_textbook re-checks in the kernel, on every run, that the table regenerated from Degree::name_base_scale and the loaded database equals the textbook (scale, base) pairs, and textbook_* put them in the property's form; eval_degree/convert_degree show the evaluator computes x*scale+base and (T-base)/scale; refusals on dimensioned operands and in compound targets and the full spelling table are theorems. Tied to the code by rational x (below absolute zero, huge, many-digit) over all 36 ordered pairs and every spelling, compared with the textbook formulas over exact fractions and with the model.",
+  "note": "Trusted: Lean kernel; rkh tables (prints what name_base_scale and Context::lookup return); Mathlib ring/norm_num.",
+  "design_ref": "DESIGN.md §7 C10",
+ },
 }
 
 NOT_YET = {
